@@ -84,6 +84,32 @@ def run_sequence(workdir, idx, seq):
     return out
 
 
+def run_multi(workdir, idx, seq):
+    """seq: list of {'hooks': {'c16pkg': hook, 'c16oth': hook}, 'version': n}: both packages imported in every run"""
+    root = os.path.join(workdir, f'multi{idx}')
+    shutil.rmtree(root, ignore_errors=True)
+    os.makedirs(root)
+    out, cur = [], None
+    for r in seq:
+        if r['version'] != cur:
+            for p in ('c16pkg', 'c16oth'):
+                write_source(root, p, r['version'])
+            cur = r['version']
+        out.append(run_process(root, {'hooks': r['hooks'], 'pkgs': ['c16pkg', 'c16oth']}))
+    shutil.rmtree(root, ignore_errors=True)
+    return out
+
+
+def gen_multi(rng):
+    seq, version = [], 1
+    for _ in range(rng.randint(2, 4)):
+        if rng.random() < 0.2:
+            version += 1
+        hk = lambda: None if rng.random() < 0.4 else {'pep526': True, 'violation': None}  # noqa: E731
+        seq.append({'hooks': {'c16pkg': hk(), 'c16oth': hk()}, 'version': version})
+    return seq
+
+
 def race_scenario(workdir):
     root = os.path.join(workdir, 'race')
     shutil.rmtree(root, ignore_errors=True)
@@ -225,6 +251,53 @@ def run(ctx):
             failures += 1
             seq, os_ = index[si * shard + j]
             ctx.report({'clause': 'correspondence'}, {'runs': seq, 'observed': os_}, 'the cache model (C16/Cache.v runs) and the interpreter runs disagree')
+    # two packages hooked independently, both imported in every run (the patched global must not outlive one import)
+    mseqs = [[{'hooks': {'c16pkg': {'pep526': True, 'violation': None}, 'c16oth': None}, 'version': 1}] * 2 +
+             [{'hooks': {'c16pkg': {'pep526': True, 'violation': None}, 'c16oth': {'pep526': True, 'violation': None}}, 'version': 1}],
+             [{'hooks': {'c16pkg': {'pep526': True, 'violation': None}, 'c16oth': {'pep526': True, 'violation': None}}, 'version': 1},
+              {'hooks': {'c16pkg': {'pep526': True, 'violation': None}, 'c16oth': None}, 'version': 1}]]
+    mseqs += [gen_multi(ctx.rng) for _ in range({'quick': 14, 'thorough': 400}[ctx.tier])]
+    with ThreadPoolExecutor(max_workers=12) as ex:
+        mobs = list(ex.map(lambda t: run_multi(ctx.workdir, t[0], t[1]), enumerate(mseqs)))
+    mrows, mindex = [], []
+    for seq, os_ in zip(mseqs, mobs):
+        ctx.case(['multi', seq], True, sample={'runs': seq, 'observed': [o.get('obs_multi') for o in os_]})
+        ctx.evaluations += 2 * len(seq) - 1
+        ctx.count('two_packages')
+        if any('crash' in o for o in os_):
+            failures += 1
+            ctx.report({'clause': 'run_crashed'}, {'runs': seq, 'observed': os_}, 'an interpreter run crashed')
+            continue
+        for pkg in ('c16pkg', 'c16oth'):
+            obs_p = [{'obs': o['obs_multi'][pkg]} for o in os_]
+            runs_p = [{'hook': r['hooks'][pkg], 'version': r['version']} for r in seq]
+            for i, (r, o) in enumerate(zip(runs_p, obs_p)):
+                ob = o['obs']
+                want = r['hook'] is not None
+                if 'import_error' in ob or ob.get('func_checked') != want or ob.get('version') != r['version']:
+                    failures += 1
+                    ctx.report({'clause': 'mixed_two_packages', 'package': pkg, 'import_error': 'import_error' in ob},
+                               {'runs': seq, 'index': i, 'package': pkg, 'observed': [x.get('obs_multi') for x in os_]},
+                               'with two independently hooked packages a module was loaded from the wrong cache '
+                               '(checked where unhooked, unchecked where hooked, or unimportable)')
+                    break
+            if all(coq_obs(o) for o in obs_p):
+                mrows.append('{| s_runs := %s; s_obs := %s |}' % (coq_list([coq_run(r) for r in runs_p]), coq_list([coq_obs(o) for o in obs_p])))
+                mindex.append((seq, os_))
+    paths = []
+    for lo in range(0, len(mrows), 200):
+        text = HEADER + 'Definition cases : list scase := %s.\nEval vm_compute in (sfailing cases).\n' % coq_list(
+            ['\n ' + r for r in mrows[lo:lo + 200]])
+        path = os.path.join(ctx.workdir, f'c16_multi_{lo}.v')
+        with open(path, 'w') as f:
+            f.write(text)
+        paths.append(path)
+    for si, out in enumerate(coqc_many(paths, jobs=8)):
+        for j in parse_nat_list(out)[:3]:
+            failures += 1
+            seq, os_ = mindex[si * 200 + j]
+            ctx.report({'clause': 'correspondence_two_packages'}, {'runs': seq, 'observed': [x.get('obs_multi') for x in os_]},
+                       'the cache model and the interpreter runs disagree (two packages)')
     # the race
     first, second = race_scenario(ctx.workdir)
     ctx.evaluations += 2
